@@ -19,6 +19,18 @@ F3: for ||y||_2 <= 1 and ||b||_2 <= 1/2: |z_i| <= 3/2, |sin z_i|, |cos z_i| <= c
 F4: Hessian Q + eps A^T diag(sech^2) A lies in [lmin(Q), lmax(Q)+eps]: strongly convex, unique minimiser,
     ||grad phi(y)|| >= sigma ||y - y*||, phi(y) - phi* <= ||grad phi(y)||^2 / (2 sigma).
 
+Two optional case keys (used by C03's task "anyproblem" only; absent => exactly the families above) leave the contractive /
+monotone domain, for the part of the oracle that is valid for ANY problem (silent => the returned tensor meets the test):
+
+  "relax": rho    the equilibrium form becomes the relaxation map g(y) = y - K f(y), K = rho / lmax, f the family's root form
+                  (lmax >= |df/dy|).  Same unique solution y*, |g(u)-u - (g(v)-v)| >= K sigma |u-v|, but dg/dy = I - K df/dy has
+                  eigenvalues down to 1 - rho: for rho > 2 the map is not a contraction (the plain iteration diverges) although
+                  the problem is perfectly solvable.  `Problem.K` holds K (None otherwise); rootfinder / minimize forms unchanged.
+  "nonmono": True (families mono / quad) the tanh / log cosh term enters with the NEGATIVE coefficient eps = -L lmin, L > 1 allowed:
+                  f(y) = D y - eps' tanh(A y + b) is not monotone, phi(y) = 1/2 y Q y - b y - eps' sum log cosh(A y) is coercive but
+                  not convex (several stationary points).  Roots exist (bounded perturbation of an invertible linear map) but are
+                  not unique: `Problem.unique` is False, `sigma` is None, no reference solution.
+
 The reference solution is computed independently of xitorch: (damped) Newton with the closed-form Jacobians above, batched
 over rows with torch.linalg.solve, and it certifies itself (residual <= 1e-12 (1+|b|)), otherwise HarnessError.
 """
@@ -114,8 +126,10 @@ class Problem:
     def __init__(self, fam, n, layout, shape, dtype, P, const):
         self.fam, self.n, self.layout, self.shape, self.dtype = fam, n, layout, tuple(shape), dtype
         self.P, self.const = P, const
-        self.sigma = const["sigma"]          # ||residual(u) - residual(v)|| >= sigma ||u - v||
+        self.sigma = const["sigma"]          # ||residual(u) - residual(v)|| >= sigma ||u - v|| (None: not monotone)
         self.L = const.get("L")              # Lipschitz constant of y -> y - f(y) (None when not a contraction)
+        self.K = const.get("K")              # relaxation factor: the equilibrium form is y - K f(y) (None: the family's own map)
+        self.unique = const.get("unique", True)
 
     # ---- row-wise residual f (root form), fixed-point map g and objective
     def f_rows(self, Y):
@@ -171,7 +185,7 @@ class Problem:
 
     def make_fcn(self, api, counter=None):
         """user function for `api` in rootfinder / equilibrium / minimize"""
-        fam, layout, n = self.fam, self.layout, self.n
+        fam, layout, n, K = self.fam, self.layout, self.n, self.K
 
         def rootfcn(y, *p):
             if counter is not None:
@@ -191,7 +205,16 @@ class Problem:
             if counter is not None:
                 counter.tick()
             Y = to_rows(y, layout, n)
-            if fam == "tanh":
+            if K is not None:        # relaxation map y - K f(y)
+                if fam == "tanh":
+                    out = Y - K * (Y - f1_g(Y, *p))
+                elif fam == "csin":
+                    out = Y - K * (Y - f3_g(Y, *p))
+                elif fam == "mono":
+                    out = Y - K * f2_f(Y, *p)
+                else:
+                    out = Y - K * f4_grad(Y, *p)
+            elif fam == "tanh":
                 out = f1_g(Y, *p)
             elif fam == "csin":
                 out = f3_g(Y, *p)
@@ -229,6 +252,8 @@ class Problem:
 
     def solve_reference(self):
         """y* of the unknown's shape (float64 / complex128 arithmetic)"""
+        if not self.unique:
+            raise HarnessError("no reference solution for a family without a unique solution")
         R = 1
         for s in self.shape:
             R *= s
@@ -333,4 +358,11 @@ def build_problem(case, g) -> Problem:
         const = {"sigma": qmin, "L": Lc if Lc < 1 else None, "lmax": qmax + eps}
     else:
         raise ValueError(fam)
+    if case.get("nonmono"):
+        if fam not in ("mono", "quad"):
+            raise ValueError("nonmono: families mono / quad only")
+        P["eps"] = -P["eps"]
+        const = {"sigma": None, "L": None, "lmax": const["lmax"], "unique": False}
+    if case.get("relax") is not None:
+        const = dict(const, K=float(case["relax"]) / const["lmax"], L=None)
     return Problem(fam, n, layout, shape, dtype, P, const)
